@@ -837,6 +837,88 @@ def _tags(fa: FA, e, at, depth=0):
     raise AnalysisError("%s: cannot tell which argument tag `%s` is" % (fa.qual, A.short(e, 50)))
 
 
+def _decoded_tags(ck, da: FA, units):
+    """The argument tags the decoder serves: what the `type` field of the state is compared with (==, in <literal
+    collection>) or looked up in (<literal table>[tag] / .get(tag)) — in decode_arg, or in a helper that is handed the
+    tag (the parameter that receives it stands for the field there)."""
+    dap = _first_param(da, "state")
+    tag_params = {id(da.fi): set()}  # unit -> parameters that hold the tag
+
+    def is_type_field(fu: FA, e, at):
+        x = fu.expand(e, at)
+        if fu is da and _state_key_of(da, x, None, dap) == "type":
+            return True
+        if isinstance(x, ast.Name) and x.id in tag_params.get(id(fu.fi), ()) and all(d.kind == "param" for d in fu.df.reaching(at, x.id)):
+            return True
+        # (a helper handed the whole state reads the field itself)
+        ps = [p for p in fu.fi.params if p not in ("cls", "self")]
+        return fu is not da and bool(ps) and id(fu.fi) in state_params and _state_key_of(fu, x, None, state_params[id(fu.fi)]) == "type"
+
+    state_params = {}
+    by_fi = {id(u.fi): u for u in units}
+    # which helper parameters receive the tag (or the state): follow the calls between the units, to a fixpoint
+    changed = True
+    rounds = 0
+    while changed and rounds < 6:
+        changed = False
+        rounds += 1
+        for fu in units:
+            if fu is not da and id(fu.fi) not in tag_params and id(fu.fi) not in state_params:
+                continue
+            for c in fu.calls():
+                if not fu.nodes(c):
+                    continue
+                try:
+                    cands, how = ck.cg.resolve(c, fu.fi)
+                except Exception:  # noqa
+                    continue
+                if how not in ("typed", "module", "nested") or len(cands) != 1 or id(cands[0]) not in by_fi or cands[0] is da.fi:
+                    continue
+                h = cands[0]
+                given = _call_args(c, [p for p in h.params if p not in ("cls", "self")])
+                if given is None:
+                    continue
+                at = fu.nodes(c)[0]
+                for p_, v_ in given.items():
+                    if is_type_field(fu, v_, at) and p_ not in tag_params.setdefault(id(h), set()):
+                        tag_params[id(h)].add(p_)
+                        changed = True
+                    xv = fu.expand(v_, at)
+                    if isinstance(xv, ast.Name) and ((fu is da and xv.id == dap) or state_params.get(id(fu.fi)) == xv.id) and id(h) not in state_params:
+                        state_params[id(h)] = p_
+                        changed = True
+    tags_in = set()
+    for fu in units:
+        for n in A.walk_body(fu.node):
+            if isinstance(n, ast.Compare) and len(n.ops) == 1 and fu.nodes(n):
+                at = fu.nodes(n)[0]
+                l, r, op = n.left, n.comparators[0], n.ops[0]
+                if isinstance(op, (ast.Eq, ast.NotEq)):
+                    if is_type_field(fu, l, at):
+                        tags_in |= _tags(fu, r, at)
+                    elif is_type_field(fu, r, at):
+                        tags_in |= _tags(fu, l, at)
+                elif isinstance(op, (ast.In, ast.NotIn)) and is_type_field(fu, l, at):
+                    elts = _elements(fu, r, at)
+                    if elts is None:
+                        raise AnalysisError("%s: `%s` tests the argument tag against something other than a literal collection" % (fu.qual, A.short(n, 60)))
+                    for e in elts:
+                        tags_in |= _tags(fu, e, None if e not in list(ast.walk(r)) else at)
+            # TABLE[<tag>] / TABLE.get(<tag>): the tags the literal table is keyed by are the ones this lookup serves
+            look = None
+            if isinstance(n, ast.Subscript) and isinstance(n.ctx, ast.Load) and not isinstance(n.slice, ast.Slice) and fu.nodes(n) and is_type_field(fu, n.slice, fu.nodes(n)[0]):
+                look = n.value
+            elif isinstance(n, ast.Call) and A.call_attr(n) == "get" and isinstance(n.func, ast.Attribute) and 1 <= len(n.args) <= 2 and fu.nodes(n) \
+                    and is_type_field(fu, n.args[0], fu.nodes(n)[0]):
+                look = n.func.value
+            if look is not None:
+                tbl = _static(fu, look, fu.nodes(n)[0])
+                if isinstance(tbl, ast.Dict) and tbl is not look and all(k is not None for k in tbl.keys):
+                    for e in tbl.keys:
+                        tags_in |= _tags(fu, e, None if e not in list(ast.walk(look)) else fu.nodes(n)[0])
+    return tags_in
+
+
 def check_plain_json(ck, R):
     """"The emitted document is plain JSON": `json.dumps` writes the bare tokens NaN / Infinity / -Infinity for non-finite floats
     unless told `allow_nan=False`; they are not JSON (RFC 8259) and strict parsers, such as those of other language
@@ -1002,50 +1084,29 @@ def check(ck):
     # ---- R3
     ea = FA(ck, MC + ".encode_arg")
     da = FA(ck, MC + ".decode_arg")
+    from .fresh import class_units
+
+    def own_units(root: FA):
+        """The function and the helpers its body was split into (the codec's other public encoders / decoders are units of their own)."""
+        out = []
+        for fi_ in class_units(ck, root):
+            if fi_ is not root.fi and fi_.cls is root.fi.cls and fi_.parent is None and fi_.name.startswith(("encode_", "decode_")):
+                continue
+            out.append(root if fi_ is root.fi else FA(ck, fi_))
+        return out
+
     tags_out = set()
     shapes_ok = True
-    for dd in [n for n in A.walk_body(ea.node) if _dict_items(n) is not None]:
-        items = _dict_items(dd)
-        ks = [k for k, _ in items]
-        if "type" in ks and ea.nodes(dd):
-            emitted |= {k for k in ks if k is not None}
-            if not set(ks) <= {"type", "value"}:
-                shapes_ok = False
-            tags_out |= _tags(ea, items[ks.index("type")][1], ea.nodes(dd)[0])
-    tags_in = set()
-    dap = _first_param(da, "state")
-
-    def is_type_field(e, at):
-        x = da.expand(e, at)
-        return _state_key_of(da, x, None, dap) == "type"
-
-    for n in A.walk_body(da.node):
-        if isinstance(n, ast.Compare) and len(n.ops) == 1 and da.nodes(n):
-            at = da.nodes(n)[0]
-            l, r, op = n.left, n.comparators[0], n.ops[0]
-            if isinstance(op, (ast.Eq, ast.NotEq)):
-                if is_type_field(l, at):
-                    tags_in |= _tags(da, r, at)
-                elif is_type_field(r, at):
-                    tags_in |= _tags(da, l, at)
-            elif isinstance(op, (ast.In, ast.NotIn)) and is_type_field(l, at):
-                elts = _elements(da, r, at)
-                if elts is None:
-                    raise AnalysisError("%s: `%s` tests the argument tag against something other than a literal collection" % (da.qual, A.short(n, 60)))
-                for e in elts:
-                    tags_in |= _tags(da, e, None if e not in list(ast.walk(r)) else at)
-        # TABLE[<tag>] / TABLE.get(<tag>): the tags the literal table is keyed by are the ones this lookup serves
-        look = None
-        if isinstance(n, ast.Subscript) and isinstance(n.ctx, ast.Load) and not isinstance(n.slice, ast.Slice) and da.nodes(n) and is_type_field(n.slice, da.nodes(n)[0]):
-            look = n.value
-        elif isinstance(n, ast.Call) and A.call_attr(n) == "get" and isinstance(n.func, ast.Attribute) and 1 <= len(n.args) <= 2 and da.nodes(n) \
-                and is_type_field(n.args[0], da.nodes(n)[0]):
-            look = n.func.value
-        if look is not None:
-            tbl = _static(da, look, da.nodes(n)[0])
-            if isinstance(tbl, ast.Dict) and tbl is not look and all(k is not None for k in tbl.keys):
-                for e in tbl.keys:
-                    tags_in |= _tags(da, e, None if e not in list(ast.walk(look)) else da.nodes(n)[0])
+    for eu_ in own_units(ea):
+        for dd in [n for n in A.walk_body(eu_.node) if _dict_items(n) is not None]:
+            items = _dict_items(dd)
+            ks = [k for k, _ in items]
+            if "type" in ks and eu_.nodes(dd):
+                emitted |= {k for k in ks if k is not None}
+                if not set(ks) <= {"type", "value"}:
+                    shapes_ok = False
+                tags_out |= _tags(eu_, items[ks.index("type")][1], eu_.nodes(dd)[0])
+    tags_in = _decoded_tags(ck, da, own_units(da))
     ck.ob(R3, ea.key(None, "arg-shape"), shapes_ok, "arguments are {type, value} objects" if shapes_ok else
           "an argument encoding has fields other than type/value", ea.where())
     ck.ob(R3, da.key(None, "tags"), tags_out == tags_in and FN_REF_TAG in tags_out, "%d argument tags agree (incl. the function-reference tag)" % len(tags_out) if tags_out == tags_in and FN_REF_TAG in tags_out else
@@ -1092,9 +1153,17 @@ def check(ck):
 
     # ---- R5
     pairs = repo_subclass_pairs(ck)
-    eu = _unrolled(ea)  # (a dispatch written as a loop over a literal table of types is decided as the if-chain it stands for)
-    lad = extract_ladder(eu.node)
-    n = check_ladder_order(ck, R5, eu, lad, pairs, "wire-encode")
+    # (a dispatch written as a loop over a literal table of types is decided as the if-chain it stands for; a part of the
+    # dispatch moved into a helper of the codec — `tag = cls._scalar_tag(obj)` — is decided where it is now)
+    from .fresh import class_units as _listing_units
+    n = 0
+    for fi_ in _listing_units(ck, ea):
+        if fi_ is not ea.fi and fi_.cls is ea.fi.cls and fi_.parent is None and fi_.name.startswith(("encode_", "decode_")):
+            continue  # the other public encoders are not part of this dispatch
+        eu = _unrolled(ea if fi_ is ea.fi else FA(ck, fi_))
+        lad = extract_ladder(eu.node)
+        if lad:
+            n += check_ladder_order(ck, R5, eu, lad, pairs, "wire-encode")
     ck.need(n >= 2, "encode_arg ladder: bool/int and datetime/date not comparable (%d)" % n)
     ck.run(check_typed_identity, ck, "C11.R6", ("serialization", "reference"))
     ck.run(check_enum_distinct, ck, "C11.R3")
